@@ -345,4 +345,63 @@ theorem mapOutcome_id (o : Outcome) : mapOutcome id id o = o := by
 theorem rawMoved_refl {lines : List Str} {P : List Pt} (h : rawPts lines = .ok P) : RawMoved lines lines id :=
   ⟨⟨P, h, by rw [h]; congr 1; exact (List.map_id _).symm⟩⟩
 
+/-- files and tables that differ in the ignored columns / fields only: the fast routines return the same thing -/
+theorem irmsdFast_ignores {dl dl' rl rl' : List Str} {dec dec' ref ref' : List Atom}
+    (hdl : List.Forall₂ LineSameButIgnored dl dl') (hrl : List.Forall₂ LineSameButIgnored rl rl')
+    (sd : dec.map strip = dec'.map strip) (sr : ref.map strip = ref'.map strip) (src : ZoneSrc) (c : Rat) (check enforce : Bool) :
+    irmsdFast dl' rl' (.ok dec') (.ok ref') src c check enforce = irmsdFast dl rl (.ok dec) (.ok ref) src c check enforce := by
+  rw [irmsdFast_lines (rawKeys_ignores hdl) (rawPts_ignores hdl) (rawKeys_ignores hrl) (rawPts_ignores hrl),
+    ← irmsdFast_tables strip_id strip_id c (strip_cutoff c) dl rl dec' ref',
+    ← irmsdFast_tables strip_id strip_id c (strip_cutoff c) dl rl dec ref, sd, sr]
+
+theorem lrmsdFast_ignores {dl dl' rl rl' : List Str} {dec dec' ref ref' : List Atom}
+    (hdl : List.Forall₂ LineSameButIgnored dl dl') (hrl : List.Forall₂ LineSameButIgnored rl rl')
+    (sd : dec.map strip = dec'.map strip) (sr : ref.map strip = ref'.map strip) (src : ZoneSrc) (check enforce : Bool) :
+    lrmsdFast dl' rl' (.ok dec') (.ok ref') src check enforce = lrmsdFast dl rl (.ok dec) (.ok ref) src check enforce := by
+  rw [lrmsdFast_lines (rawKeys_ignores hdl) (rawPts_ignores hdl) (rawKeys_ignores hrl) (rawPts_ignores hrl),
+    ← lrmsdFast_tables strip_id strip_id dl rl dec' ref',
+    ← lrmsdFast_tables strip_id strip_id dl rl dec ref, sd, sr]
+
+theorem commonBackbone_strip (dec ref : List Atom) (sel sel' : Atom → Bool) (hsel : ∀ r ∈ ref, sel' (strip r) = sel r) :
+    commonBackbone (dec.map strip) (ref.map strip) sel' = commonBackbone dec ref sel := by
+  have h := commonBackbone_map (fD := strip) (fR := strip) (kf := id) (pd := id) (pr := id) (fun _ _ h => h)
+    (fun _ => rfl) (fun _ => rfl) (fun _ => rfl) (fun _ => rfl) (fun _ => rfl) dec ref sel sel' hsel
+  rw [h]
+  conv_rhs => rw [← List.map_id (commonBackbone dec ref sel)]
+  rfl
+
+theorem atInterface_strip (ref : List Atom) (c : Rat) (ch : Str) (rs : Int) :
+    atInterface (ref.map strip) c ch rs = atInterface ref c ch rs := by
+  have := atInterface_map (f := strip) 0 (fun _ => rfl) (fun a => by simp [strip]) c (fun _ _ => rfl) ref ch rs
+  simpa using this
+
+/-- the definition's pairs do not look at the ignored fields -/
+theorem pairs_ignores {dec dec' ref ref' : List Atom} (sd : dec.map strip = dec'.map strip) (sr : ref.map strip = ref'.map strip)
+    (c : Rat) :
+    interfacePairs dec' ref' c = interfacePairs dec ref c ∧ ligandFitPairs dec' ref' = ligandFitPairs dec ref ∧
+    ligandEvalPairs dec' ref' = ligandEvalPairs dec ref := by
+  have hI : ∀ D R : List Atom, interfacePairs (D.map strip) (R.map strip) c = interfacePairs D R c := by
+    intro D R
+    unfold interfacePairs
+    exact commonBackbone_strip D R _ _ (fun r _ => atInterface_strip R c r.chainID r.resSeq)
+  have hls : ∀ R : List Atom, longShort (R.map strip) = longShort R := fun R => longShort_map (f := strip) (fun _ => rfl) R
+  have hF : ∀ D R : List Atom, ligandFitPairs (D.map strip) (R.map strip) = ligandFitPairs D R := by
+    intro D R
+    unfold ligandFitPairs
+    rw [hls]
+    cases longShort R with
+    | none => rfl
+    | some ls => exact commonBackbone_strip D R _ _ (fun _ _ => rfl)
+  have hE : ∀ D R : List Atom, ligandEvalPairs (D.map strip) (R.map strip) = ligandEvalPairs D R := by
+    intro D R
+    unfold ligandEvalPairs
+    rw [hls]
+    cases longShort R with
+    | none => rfl
+    | some ls => exact commonBackbone_strip D R _ _ (fun _ _ => rfl)
+  refine ⟨?_, ?_, ?_⟩
+  · rw [← hI dec' ref', ← hI dec ref, sd, sr]
+  · rw [← hF dec' ref', ← hF dec ref, sd, sr]
+  · rw [← hE dec' ref', ← hE dec ref, sd, sr]
+
 end Proofs.Scores
